@@ -46,7 +46,8 @@ def random_leaf(av, rng, name="", gen=None):
     if np.issubdtype(dt, np.integer):
         return jnp.asarray(rng.integers(0, 3, size=av.shape), dtype=dt)
     # dyadic rationals keep float32 arithmetic close to exact
-    return jnp.asarray(np.round(rng.normal(size=av.shape) * 8) / 8, dtype=dt)
+    mag = np.round(rng.uniform(0.25, 2.0, size=av.shape) * 8) / 8
+    return jnp.asarray(mag * rng.choice([-1.0, 1.0], size=av.shape), dtype=dt)
 
 
 def run_real(traced, leaf_values, w=None, jit=False):
